@@ -350,6 +350,12 @@ type RefreshCase struct {
 	OnShutdown bool  `json:"on_shutdown"`  // RefreshOnShutdown
 	FinalErr   bool  `json:"final_err"`    // outcome of the final refresh
 	FinalDurMS int   `json:"final_dur_ms"` // duration of the final refresh
+	// CancelStartMS, when positive, cancels the context that was given to
+	// Start at this instant + 0.25 ms (the start-up idiom "ctx, cancel :=
+	// context.WithTimeout(...); defer cancel(); svc.Start(ctx)").  Only
+	// Shutdown stops the worker; outcome 2 is a refresher that returns its
+	// context's error, if any.
+	CancelStartMS int `json:"cancel_start_ms,omitempty"`
 }
 
 type ctxKey string
@@ -440,7 +446,13 @@ func checkRefresh(c RefreshCase) error {
 				}
 				time.Sleep(time.Duration(c.DursMS[i%len(c.DursMS)]) * time.Millisecond)
 				var err error
-				if c.Outcomes[i%len(c.Outcomes)] != 0 {
+				switch c.Outcomes[i%len(c.Outcomes)] {
+				case 0:
+				case 2:
+					if cerr := ctx.Err(); cerr != nil {
+						err = fmt.Errorf("refresh %d: %w", i, cerr)
+					}
+				default:
 					err = fmt.Errorf("refresh %d failed", i)
 				}
 				mu.Lock()
@@ -450,9 +462,18 @@ func checkRefresh(c RefreshCase) error {
 			}),
 			RefreshOnShutdown: c.OnShutdown,
 		})
-		if err := w.Start(context.WithValue(context.Background(), ctxKey("parent"), "start")); err != nil {
+		startCtx, cancelStart := context.WithCancel(context.WithValue(context.Background(), ctxKey("parent"), "start"))
+		defer cancelStart()
+		if err := w.Start(startCtx); err != nil {
 			v.fail("Start returned %v", err)
 			return
+		}
+		cancelAt := time.Duration(c.CancelStartMS)*time.Millisecond + 250*time.Microsecond
+		if c.CancelStartMS > 0 {
+			go func() {
+				time.Sleep(cancelAt)
+				cancelStart()
+			}()
 		}
 
 		// Timeline model: expected start instants of the loop refreshes.
@@ -509,7 +530,7 @@ func checkRefresh(c RefreshCase) error {
 				v.fail("refresh #%d did not get a context from the ContextConstructor", i)
 				return
 			}
-			if r.ctxErr != nil {
+			if r.ctxErr != nil && (c.CancelStartMS <= 0 || r.shutdown || r.start < cancelAt) {
 				v.fail("refresh #%d got an already cancelled context", i)
 				return
 			}
@@ -604,6 +625,9 @@ func checkRefresh(c RefreshCase) error {
 	if c.OnShutdown {
 		vp.Class("refresh:RefreshOnShutdown")
 	}
+	if c.CancelStartMS > 0 && c.CancelStartMS < c.ShutdownMS {
+		vp.Class("refresh:Start-context-cancelled-before-Shutdown")
+	}
 	if inflight || (nRefresh >= 2 && nErr >= 1) {
 		vp.NonTrivialStr("c18.refresh", fmt.Sprintf("%+v", c))
 		vp.Sample("refresh", c)
@@ -630,13 +654,14 @@ var refreshProp = vp.Register(vp.Prop[RefreshCase]{
 	Kind: "c18.refresh", Base: 5000,
 	Gen: func(t *rapid.T) RefreshCase {
 		return RefreshCase{
-			DelaysMS:   rapid.SliceOfN(rapid.IntRange(1, 50), 1, 5).Draw(t, "delays"),
-			DursMS:     rapid.SliceOfN(rapid.IntRange(0, 30), 1, 5).Draw(t, "durs"),
-			Outcomes:   rapid.SliceOfN(rapid.IntRange(0, 1), 1, 5).Draw(t, "outcomes"),
-			ShutdownMS: rapid.IntRange(0, 300).Draw(t, "shutdown"),
-			OnShutdown: rapid.Bool().Draw(t, "onshutdown"),
-			FinalErr:   rapid.Bool().Draw(t, "finalerr"),
-			FinalDurMS: rapid.IntRange(0, 20).Draw(t, "finaldur"),
+			DelaysMS:      rapid.SliceOfN(rapid.IntRange(1, 50), 1, 5).Draw(t, "delays"),
+			DursMS:        rapid.SliceOfN(rapid.IntRange(0, 30), 1, 5).Draw(t, "durs"),
+			Outcomes:      rapid.SliceOfN(rapid.IntRange(0, 2), 1, 5).Draw(t, "outcomes"),
+			ShutdownMS:    rapid.IntRange(0, 300).Draw(t, "shutdown"),
+			CancelStartMS: rapid.SampledFrom([]int{0, 0, 1, 10, 40, 100}).Draw(t, "cancelstart"),
+			OnShutdown:    rapid.Bool().Draw(t, "onshutdown"),
+			FinalErr:      rapid.Bool().Draw(t, "finalerr"),
+			FinalDurMS:    rapid.IntRange(0, 20).Draw(t, "finaldur"),
 		}
 	},
 	Check: checkRefresh,
